@@ -81,21 +81,60 @@ def sortDesc (key : String → Nat) : List String → List String
   | [] => []
   | x :: xs => insertDesc key x (sortDesc key xs)
 
+/-- the supertype list as `ENTITYget_supertypes` returns it while the module is written: declaration order, unless the
+generator sorts it in place (`sortsBases`, regenerated from the C source) -/
+def superOrder (es : List Entity) (e : Entity) : List String :=
+  if sortsBases then sortDesc (chainLen es es.length) e.supers else e.supers
+
+/-- `ENTITYhas_ancestor( n, anc )`: `anc` is a direct or indirect supertype of `n` -/
+def isAncestor (es : List Entity) : Nat → String → String → Bool
+  | 0, _, _ => false
+  | f + 1, anc, n =>
+    match find es n with
+    | none => false
+    | some e => e.supers.any (fun p => p == anc || isAncestor es f anc p)
+
+/-- `r` has to wait: a subtype of it is still among the remaining supertypes -/
+def blocked (es : List Entity) (r : String) (remaining : List String) : Bool :=
+  remaining.any (fun o => o != r && isAncestor es es.length r o)
+
+/-- `python_base_order`: repeatedly take the first remaining supertype that is not an ancestor of another remaining one -/
+def pyOrder (es : List Entity) : Nat → List String → List String
+  | 0, rem => rem
+  | f + 1, rem =>
+    match rem with
+    | [] => []
+    | x :: xs =>
+      let r := ((x :: xs).find? (fun r => !blocked es r (x :: xs))).getD x
+      r :: pyOrder es f ((x :: xs).erase r)
+
 /-- the emitted base-class list (before escaping) -/
-def bases (es : List Entity) (e : Entity) : List String := sortDesc (chainLen es es.length) e.supers
+def bases (es : List Entity) (e : Entity) : List String :=
+  if ancestorsLast then pyOrder es (superOrder es e).length (superOrder es e) else superOrder es e
+
+/-- keep the first occurrence of every attribute (`LISTadd_attributes_once`: identity of the `Variable`) -/
+def dedup : List Attr → List Attr
+  | [] => []
+  | a :: as => a :: (dedup as).filter (fun b => b ≠ a)
 
 /-- `ENTITYget_all_attributes` over the sorted supertype lists -/
 def allAttrs (es : List Entity) : Nat → Entity → List Attr
   | 0, e => e.attrs
   | f + 1, e =>
-    ((bases es e).flatMap (fun p => match find es p with
+    ((superOrder es e).flatMap (fun p => match find es p with
         | some pe => allAttrs es f pe
         | none => [])) ++ e.attrs
 
-def inheritedAttrs (es : List Entity) (e : Entity) : List Attr :=
-  ((bases es e).flatMap (fun p => match find es p with
+/-- all attributes of the supertypes, in emission order, once per supertype path -/
+def inheritedAll (es : List Entity) (e : Entity) : List Attr :=
+  (superOrder es e).flatMap (fun p => match find es p with
       | some pe => allAttrs es es.length pe
-      | none => [])).filter isParam
+      | none => [])
+
+/-- the attributes behind the `inherited<i>__…` parameters: with `inheritedOnce` (regenerated from the C source) every
+inherited attribute once (`ENTITYget_inherited_attributes_once`), else once per path -/
+def inheritedAttrs (es : List Entity) (e : Entity) : List Attr :=
+  (if inheritedOnce then dedup (inheritedAll es e) else inheritedAll es e).filter isParam
 
 def ownParams (e : Entity) : List String := (e.attrs.filter isParam).map (fun a => pyName a.name)
 
@@ -147,22 +186,25 @@ def pyKeywords : List String :=
   ["assert", "async", "await", "break", "class", "continue", "def", "del", "elif", "except", "finally", "global",
    "import", "is", "lambda", "nonlocal", "pass", "raise", "try", "yield"]
 
-/-- keep the first occurrence of every attribute (an ancestor reached along two paths contributes once) -/
-def dedup : List Attr → List Attr
-  | [] => []
-  | a :: as => a :: (dedup as).filter (fun b => b ≠ a)
-
-/-- inherited-then-own attributes in declaration order, each once: the order of an instance's Part 21 parameters -/
-def p21Attrs (es : List Entity) : Nat → Entity → List Attr
+/-- attributes of an entity in declaration order: supertypes (recursively, as declared) then own; an ancestor reached
+along several paths appears once per path here -/
+def declAttrs (es : List Entity) : Nat → Entity → List Attr
   | 0, e => e.attrs
   | f + 1, e =>
-    dedup ((e.supers.flatMap (fun p => match find es p with
-        | some pe => p21Attrs es f pe
-        | none => [])) ++ e.attrs)
+    (e.supers.flatMap (fun p => match find es p with
+        | some pe => declAttrs es f pe
+        | none => [])) ++ e.attrs
 
-/-- constructor parameters the property asks for, as attribute names -/
+/-- inherited attributes in Part 21 order: declaration order, every attribute once (first occurrence) -/
+def inheritedP21 (es : List Entity) (e : Entity) : List Attr :=
+  dedup (e.supers.flatMap (fun p => match find es p with
+      | some pe => declAttrs es es.length pe
+      | none => []))
+
+/-- constructor parameters the property asks for, as attribute names: inherited-then-own explicit attributes in Part 21
+order -/
 def ctorAttrNames (es : List Entity) (e : Entity) : List String :=
-  ((p21Attrs es es.length e).filter isParam).map (fun a => a.name)
+  ((inheritedP21 es e).filter isParam ++ e.attrs.filter isParam).map (fun a => a.name)
 
 end Spec
 
